@@ -580,4 +580,62 @@ pub fn stiff(args: &[String]) {
             r14(200000 + k, &format!("{:?}", kind), method, key, &why, &format!("{}\"user_jac\":{},\"xend\":{},\"rtol\":{},", extra, user_jac, xend, jnum(*rtol)));
         } }
     }
+    // nonlinear relaxation onto a slow manifold, started off it, with a user first step that is far too long for the
+    // transient: several corrector / Newton failures in a row before the first accepted step (LU / Jacobian refresh paths)
+    for (k, (rtol, first)) in [(1e-6, 1e-2), (1e-4, 1e-2), (1e-6, 1e-1)].iter().enumerate() {
+        for method in [Method::RADAU, Method::BDF] { for user_jac in [true, false] {
+            let mut steps = vec![];
+            let (mut why, mut key) = (String::new(), "");
+            for ex in [2.0, 4.0, 6.0, 8.0, 10.0] {
+                let p = Relax { lam: 10f64.powf(ex), user_jac };
+                let o = Options::builder().method(method).rtol(*rtol).atol(rtol * 1e-2).first_step(*first).build();
+                match catch_unwind(AssertUnwindSafe(|| solve_ivp(&p, 0.0, 10.0, &[3.0, 1.0], o))) {
+                    Ok(Ok(s)) => {
+                        steps.push(s.nstep);
+                        if s.status != Status::Success && why.is_empty() { why = format!("stiffness 1e{}: status {:?} after {} accepted steps", ex, s.status, s.naccpt); key = "c14-status"; }
+                        let yl = s.y.last().unwrap();
+                        let t = *s.t.last().unwrap();
+                        let exact = [2.0 + t.sin(), 2.0 + 0.5 * (t.sin() - t.cos()) - 0.5 * (-t).exp()];
+                        let b = 10.0 * (s.naccpt.max(1) as f64) * (rtol * 1e-2 + rtol * 3.0);
+                        if s.status == Status::Success && why.is_empty() && ex >= 4.0 && ((yl[0] - exact[0]).abs() > b || (yl[1] - exact[1]).abs() > b + 2.0 / 10f64.powf(ex)) { why = format!("stiffness 1e{}: final state {:?} vs slow solution {:?}", ex, yl, exact); key = "c14-accuracy"; }
+                    }
+                    _ => { if why.is_empty() { why = format!("stiffness 1e{}: run fails", ex); key = "c14-status"; } steps.push(0); }
+                }
+            }
+            if why.is_empty() {
+                let (mn, mx) = (*steps.iter().min().unwrap(), *steps.iter().max().unwrap());
+                if mx > 3 * mn + 60 { why = format!("step counts grow with the stiffness ratio: {:?} for 1e2..1e10", steps); key = "c14-steps"; }
+            }
+            r14(300000 + k, "relaxation-off-manifold", method, key, &why, &format!("\"user_jac\":{},\"rtol\":{},\"first_step\":{},\"steps\":{:?},", user_jac, jnum(*rtol), jnum(*first), steps));
+        } }
+    }
+}
+
+/// y0' = -lam (y0^3 - phi^3) + phi',  y1' = -(y1 - y0),  phi = 2 + sin t: relaxation with rate ~ 3 lam phi^2 onto y0 = phi
+struct Relax { lam: f64, user_jac: bool }
+impl IVP for Relax {
+    fn ode(&self, x: f64, y: &[f64], d: &mut [f64]) {
+        let p = 2.0 + x.sin();
+        d[0] = -self.lam * (y[0] * y[0] * y[0] - p * p * p) + x.cos();
+        d[1] = -(y[1] - y[0]);
+    }
+    fn jac(&self, x: f64, y: &[f64], j: &mut Matrix) {
+        if self.user_jac {
+            j[(0, 0)] = -3.0 * self.lam * y[0] * y[0]; j[(0, 1)] = 0.0; j[(1, 0)] = 1.0; j[(1, 1)] = -1.0;
+        } else {
+            // the trait's default forward-difference formula
+            let n = y.len();
+            let mut yp = y.to_vec();
+            let (mut f0, mut f1) = (vec![0.0; n], vec![0.0; n]);
+            self.ode(x, y, &mut f0);
+            let eps = f64::EPSILON.sqrt();
+            for c in 0..n {
+                let h = eps * y[c].abs().max(1.0);
+                yp[c] = y[c] + h;
+                self.ode(x, &yp, &mut f1);
+                yp[c] = y[c];
+                for r in 0..n { j[(r, c)] = (f1[r] - f0[r]) / h; }
+            }
+        }
+    }
 }
